@@ -23,7 +23,7 @@ RULE = ("cases: (a) ill-defined models by construction: self reference, cycles o
         "by identity, by equal copy and by equal definition through another class (Any(a,b) next to Xor(a,b)). non-trivial: every "
         "case is; distinct by (class, canonical shape digest)")
 BUDGET = {"quick": (8, 260, 60), "thorough": (16, 4000, 900)}
-ILL = ["self-ref", "cycle", "dup-child", "leaf-bounds", "leaf-bounds-twin", "compound-sign", "compound-value",
+ILL = ["self-ref", "cycle", "dup-child", "dup-child-ref-leaf", "generated-id-collision", "compound-value-twin", "leaf-bounds", "leaf-bounds-twin", "compound-sign", "compound-value",
        "compound-children", "compound-children-twin", "leaf-vs-compound"]
 MANDATORY = ["judged:accepted=>well-defined", "judged:tree=>accepted", "judged:sharing=>accepted", "contract:AtLeast.errors"] + \
             ["count:ill:" + c for c in ILL] + ["count:ill-rejected", "count:class:tree", "count:class:share-identity",
@@ -132,6 +132,33 @@ def build_ill(cls, rng):
             c = pg.Any("a", "b", variable="C")
             return pg.AtLeast(1, [c, c] + extra, variable="A")
         return pg.All(pg.AtLeast(2, ["p", "p"] + extra, variable="B"), "v", variable="A")
+    if cls == "dup-child-ref-leaf":
+        # a node lists a sub-proposition and a leaf carrying the same id (and bounds) side by side
+        r = rng.random()
+        inner = rng.choice([lambda: pg.Any("x", "y", variable="B"), lambda: pg.All("x", variable="B"), lambda: pg.AtMost(1, ["x", "y"], variable="B")])
+        if r < 0.3:
+            return pg.All(inner(), "B", variable="A")
+        if r < 0.5:
+            return pg.All("B", inner(), variable="A")
+        if r < 0.7:
+            return pg.All(puan.variable("B"), inner(), "z", variable="A")
+        if r < 0.85:
+            return pg.Any(pg.All(inner(), puan.variable("B"), "q", variable="C"), "p", variable="A")
+        return pg.All(pg.Any("x", "y", variable=puan.variable("B", (1, 1))), puan.variable("B", (1, 1)), variable="A")
+    if cls == "generated-id-collision":
+        # generated ids are a digest of the concatenated child ids + value + sign: different definitions can collide
+        pair = rng.choice([
+            (lambda: pg.Any("ab", "c"), lambda: pg.Any("a", "bc")),
+            (lambda: pg.All("ab", "c"), lambda: pg.All("a", "bc")),
+            (lambda: pg.Any("a", "b1"), lambda: pg.AtLeast(11, ["a", "b"])),
+            (lambda: pg.AtLeast(1, ["x1"], sign=1), lambda: pg.AtLeast(11, ["x"], sign=1)),
+            (lambda: pg.AtLeast(2, ["p", "q", "rs"]), lambda: pg.AtLeast(2, ["p", "qr", "s"])),
+        ])
+        return pg.All(pg.All(pair[0](), "p0", variable="P"), pg.All(pair[1](), "q0", variable="Q"), variable="M")
+    if cls == "compound-value-twin":
+        # hash(-1) == hash(-2)
+        return pg.All(pg.Any(pg.AtLeast(-1, ["x", "y", "z"], variable="S", sign=-1), "p", variable="B"),
+                      pg.Any(pg.AtLeast(-2, ["x", "y", "z"], variable="S", sign=-1), "q", variable="C"), variable="A")
     if cls == "leaf-bounds":
         b1, b2 = rng.choice([((0, 1), (0, 2)), ((0, 5), (1, 5)), ((-3, 3), (0, 1)), ((2, 2), (0, 1))])
         return pg.All(pg.Any(puan.variable("x", b1), "y", variable="B"), pg.Any(puan.variable("x", b2), "z", variable="C"), variable="A")
